@@ -42,13 +42,19 @@ def trainTxs (files : List Bytes) : Except String (List TTx) := do
     | none => .error "panic"
   pure txss.flatten
 
-/-- candidates whose exact score is within `10⁻⁹` (relative) of the best one: a float evaluation of the logarithm sum
-may pick any of them -/
+/-- candidates the float evaluation of the logarithm sum may pick: those whose exact score is within `10⁻⁹` (relative) of
+the best one, except a candidate that reads exactly the same numbers as an earlier one (same count, same lookups: the
+float scores are then identical and `score > max` keeps the earlier) -/
 def acceptable (m : Model) (desc : Bytes) (b : BookingV) (other : Bytes) : List Bytes :=
   let tokens := tokenize desc b.commodity b.quantity other
-  let scored := ((sortU m.countByAccount.keys).filter (· ≠ other)).map fun c => (c, m.scoreCandidate exactScorer c tokens)
-  let mx := scored.foldl (fun a p => if a < p.2 then p.2 else a) 0
-  (scored.filter fun p => decide (mx * (1 - (1 : Rat) / 1000000000) ≤ p.2)).map (·.1)
+  let scored := ((sortU m.countByAccount.keys).filter (· ≠ other)).map fun c =>
+    (c, m.scoreCandidate exactScorer c tokens, (m.countByAccount.get c 0, tokens.map fun t => m.lookupTA t c))
+  let mx := scored.foldl (fun a p => if a < p.2.1 then p.2.1 else a) 0
+  let near := scored.filter fun p => decide (mx * (1 - (1 : Rat) / 1000000000) ≤ p.2.1)
+  let rec dedup (seen : List (Nat × List (Option Nat))) : List (Bytes × Rat × Nat × List (Option Nat)) → List Bytes
+    | [] => []
+    | p :: rest => if seen.contains p.2.2 then dedup seen rest else p.1 :: dedup (p.2.2 :: seen) rest
+  dedup [] near
 
 /-- number of decisions of `inferBooking` with more than one acceptable candidate -/
 def nearTies (m : Model) (desc : Bytes) (b : BookingV) : Nat :=
